@@ -291,6 +291,9 @@ func sumByKey(_ *api.Context, c b6.Collection[any, int]) (b6.Collection[any, int
 		if !ok {
 			break
 		}
+		if !api.IsHashable(i.Key()) {
+			return b6.Collection[any, int]{}, fmt.Errorf("can't sum values for keys of type %T", i.Key())
+		}
 		counts[i.Key()] += i.Value()
 	}
 	r := &b6.ArrayCollection[any, int]{
@@ -316,7 +319,9 @@ func countValues(_ *api.Context, collection b6.Collection[any, any]) (b6.Collect
 		if !ok {
 			break
 		}
-		// TODO: return an error if the value can't be used as a map key
+		if !api.IsHashable(i.Value()) {
+			return b6.Collection[any, int]{}, fmt.Errorf("can't count values of type %T", i.Value())
+		}
 		counts[i.Value()]++
 	}
 	r := &b6.ArrayCollection[interface{}, int]{
@@ -342,7 +347,9 @@ func countKeys(_ *api.Context, collection b6.Collection[any, any]) (b6.Collectio
 		if !ok {
 			break
 		}
-		// TODO: return an error if the value can't be used as a map key
+		if !api.IsHashable(i.Key()) {
+			return b6.Collection[any, int]{}, fmt.Errorf("can't count keys of type %T", i.Key())
+		}
 		counts[i.Key()]++
 	}
 	r := &b6.ArrayCollection[interface{}, int]{
@@ -369,7 +376,9 @@ func countValidKeys(_ *api.Context, collection b6.Collection[any, any]) (b6.Coll
 		if !ok {
 			break
 		}
-		// TODO: return an error if the value can't be used as a map key
+		if !api.IsHashable(i.Key()) {
+			return b6.Collection[any, int]{}, fmt.Errorf("can't count keys of type %T", i.Key())
+		}
 		if id, ok := i.Value().(b6.FeatureID); ok {
 			if id.IsValid() {
 				counts[i.Key()]++
